@@ -217,7 +217,10 @@ class RepeatedFailures(PipelineBase):
         kind=self.KINDS[run.pick(len(self.KINDS),'history_kind')]; n=self.ns[run.pick(len(self.ns),'history_length')] if len(self.ns)>1 else self.ns[0]
         sub=bool(run.pick(2,'B_has_sublayout'))
         A=self.scen_A(kind); B=self.scen_B(sub)
-        self.link_dir='linksA'; aAs=[self.install(run,*A) for _ in range(n)]; dA=dict(run.ghost['dirs'])
+        # the failing call is the same every time: installed once (signature tags are one byte), its arguments copied per call
+        from mirsym.models import clone_val
+        self.link_dir='linksA'; a0=self.install(run,*A); dA=dict(run.ghost['dirs'])
+        aAs=[[Ref(Cell(clone_val(deref(a0[0])))),clone_val(a0[1]),a0[2],a0[3]] for _ in range(n)]
         self.link_dir='linksB'; aB=self.install(run,*B); run.ghost['dirs'].update(dA)
         self.link_dir='links'
         return (aAs,aB),{'A':A,'B':B,'n':n,'kind':kind,'sub':sub}
